@@ -117,7 +117,7 @@ func C17(c *ev.Ctx) {
 	cfg := fmt.Sprintf("CONSTANTS\n Pkgs <- MCPkgs\n Class <- MCClass\n PatternLists <- MCPatterns\n D = %d\nINIT Init\nNEXT Next\nINVARIANT EmitHist\n", depth)
 	_ = os.WriteFile(filepath.Join(dir, "SimGooseCmd.cfg"), []byte(cfg), 0644)
 	sr := tlc.Run{Dir: dir, Module: "MCGooseCmd", Cfg: "SimGooseCmd.cfg", Workers: 1, Timeout: 10 * time.Minute,
-		Args: []string{"-simulate", fmt.Sprintf("num=%d", nb*12), "-depth", fmt.Sprint(depth + 1), "-seed", fmt.Sprint(c.Seed)}}.Do()
+		Args: []string{"-simulate", fmt.Sprintf("num=%d", nb*40), "-depth", fmt.Sprint(depth + 1), "-seed", fmt.Sprint(c.Seed)}}.Do()
 	c.AddTLC(sr)
 	if sr.TLCError || len(sr.Prints) == 0 {
 		c.Inconclusive("simulation produced no behaviours:\n%s", tlc.Tail(sr.Out, 20))
@@ -137,8 +137,11 @@ func C17(c *ev.Ctx) {
 			switch e.Op {
 			case "invoke":
 				for _, pk := range e.Pats {
-					if translated[pk] && edited[pk] && (e.Ign || pk == "goodffi") {
-						sc += 3
+					// only goodffi and latebad have two different source versions: re-translating one of them after an
+					// edit (its new output is shorter and a prefix of the old one) is what exercises "rewritten iff changed"
+					if translated[pk] && edited[pk] && ((pk == "goodffi") || (pk == "latebad" && e.Ign)) {
+						sc += 5
+						edited[pk] = false
 					}
 					translated[pk] = true
 				}
